@@ -77,12 +77,13 @@ def fieldsOf (l : String) : List String := words l
 
 def handle (c : Case) : CaseOut :=
   let inp := parseInput c.ops
-  match outsideDomain inp with
+  let asym := c.family.startsWith "asym"
+  match outsideDomain inp (!asym) with
   | some why => { model := #[], verdict := .skip ("outside the domain: " ++ why) }
   | none =>
   if inp.runs.isEmpty then { model := #[], verdict := .skip "no run requested" }
   else
-    let dense := c.family.startsWith "dense"
+    let dense := c.family.startsWith "dense" || asym
     let (model, stats) : Array String × List (String × String) :=
       match runModel inp with
       | none => (#["D rc=101"], [("model", "panic")])
